@@ -267,7 +267,7 @@ Fixpoint steps_obs2 (lk tw : id -> id -> id) (tmp : id) (t : rtree) (cs : cstore
   | [] => []
   | bds :: rest =>
       match tdvp2s_step_t lk tw tmp t cs bds with
-      | Some (cs', left) => Some (cobs2 cs', length left) :: steps_obs2 lk tw tmp t cs' rest
+      | Some (cs', unused) => Some (cobs2 cs', length unused) :: steps_obs2 lk tw tmp t cs' rest
       | None => [None]
       end
   end.
